@@ -333,6 +333,16 @@ def random_tree_case(rng, max_n, max_f):
     return c
 
 
+def parallel_tree_case(rng):
+    """the joblib branch of parse_decision_tree_to_extents: a forest of >= 2 trees, n_jobs=2, tiny data
+    (rationed: the worker pool costs about a second to start)"""
+    X, n = random_xy(rng, 6, 2)
+    model = rng.choice(['rfc', 'rfr'])
+    p = {'random_state': rng.randrange(1000), 'max_depth': rng.choice([1, 2, 3]),
+         'n_estimators': rng.choice([2, 3, 5])}
+    return {'kind': 'tree', 'X': X, 'y': random_target(rng, n, model), 'model': model, 'params': p, 'n_jobs': 2}
+
+
 def random_forest_case(rng, max_n, max_cols):
     data, mode = random_mv_data(rng, max_n, max_cols, force_points=rng.random() < 0.25)
     while len(data) < 2:
@@ -381,6 +391,9 @@ def generate(rng, tier):
         cases.append(random_tree_case(rng, 10, 4))
     for _ in range(n_forest):
         cases.append(random_forest_case(rng, 8, 3))
+    # kept together at the end so that one worker process (one joblib pool) runs them all
+    for _ in range(48 if tier == 'thorough' else 8):
+        cases.append(parallel_tree_case(rng))
     return cases
 
 
@@ -420,7 +433,7 @@ def stats(case):
             d['size'] = '%dx%d' % (len(case['data']), len(case['data'][0]))
             d['ps'] = 'numpy' if case.get('numpy_ps') else 'plain'
     else:
-        d.update({'model': case['model'], 'depth': case['params'].get('max_depth')})
+        d.update({'model': case['model'], 'depth': case['params'].get('max_depth'), 'n_jobs': case.get('n_jobs', 1)})
         if k == 'forest':
             d['shape'] = case.get('shape', '')
     return d
